@@ -4,7 +4,7 @@
 # worktree of /repo (/tmp/repo-mut), so that work in /verif and /repo can go on meanwhile.
 # (tools/mutrun.sh does the same against /repo itself.)
 tier=$1; shift
-SNAP=/tmp/verif-snap; RM=/tmp/repo-mut
+SNAP=${SNAP:-/tmp/verif-snap}; RM=${RM:-/tmp/repo-mut}
 mkdir -p $SNAP /tmp/mutrun
 rsync -a --delete --exclude out/ --exclude work/ --exclude .git/ /verif/ $SNAP/
 if [ ! -d $RM ]; then git -C /repo worktree add --detach $RM HEAD >/dev/null 2>&1; fi
